@@ -20,9 +20,16 @@ def walk(root):
     res = {}
     for d, dirs, files in os.walk(root):
         for x in dirs:
-            res[os.path.join(d, x) + "/"] = None
+            p = os.path.join(d, x)
+            if os.path.islink(p):
+                res[p] = b"<symlink> " + os.readlink(p).encode("utf8", "surrogateescape")
+            else:
+                res[p + "/"] = None
         for x in files:
             p = os.path.join(d, x)
+            if os.path.islink(p):
+                res[p] = b"<symlink> " + os.readlink(p).encode("utf8", "surrogateescape")
+                continue
             try:
                 res[p] = open(p, "rb").read()
             except OSError:
@@ -31,9 +38,18 @@ def walk(root):
 
 
 def make_zip(stepno, names):
+    """A member name of the form 'NAME->TARGET' becomes a symlink-mode entry (unix mode S_IFLNK in external_attr, as
+    written by `zip -y`) named NAME whose data is TARGET; the code under test has to treat it like any other member."""
     buf = io.BytesIO()
     with zipfile.ZipFile(buf, "w") as z:
         for i, n in enumerate(names):
+            if "->" in n and not n.endswith("/"):
+                n, target = n.split("->", 1)
+                zi = zipfile.ZipInfo(n)
+                zi.create_system = 3
+                zi.external_attr = (0o120777) << 16
+                z.writestr(zi, target.encode("utf8", "surrogatepass"))
+                continue
             zi = zipfile.ZipInfo(n)
             z.writestr(zi, b"" if n.endswith("/") else b"step%d-data%d" % (stepno, i))
     return zipfile.ZipFile(io.BytesIO(buf.getvalue()))
@@ -87,6 +103,12 @@ def run_step(root, cwd, stepno, dst, names, zf=None):
     gone = sorted(p for p in before if p not in after)
     D = os.path.realpath(os.path.join(cwd, dst))
     outside = [p for p in changed if not (os.path.realpath(p.rstrip("/")) + "/").startswith(D + "/")] + gone
+    # a symbolic link created by the extraction that leads outside the destination is an escape hatch for later members
+    for p in changed:
+        if os.path.islink(p.rstrip("/")):
+            tgt = os.path.realpath(p.rstrip("/"))
+            if not (tgt + "/").startswith(D + "/") and p not in outside:
+                outside.append(p)
     # a file re-written with identical bytes leaves no trace in the snapshot diff: also judge the paths the code
     # opened for writing / asked makedirs for
     for kind, p in ops:
